@@ -37,9 +37,39 @@ CHECKS = {
          "For a fixed packet list x 3 links every single fault position is enumerated after a dry run that counts the device calls (exhaustive over that list only); on top, seeded exploration with random packets up to 4096 frames and random reaction mixes. Oracle: the stream the device accepted is always a prefix of the packet's frames (the library's own fragmenter/encoders define them), equal to it whenever Ok is returned; write/flush failures and displaced frames yield Err; delays and partial writes alone never make the call fail or block. Found and led to the repair of the short-write defect (known_findings.txt).",
          "Trusted: device models return only values the real drivers can return; the expected stream is defined by the library's own to_frames/encoders. Not a proof beyond the enumerated list.",
          "DESIGN.md §5 S-SEND / C14"),
+ "C07": ("exploration",
+         "deterministic simulation of a faulty frame channel (drop, duplicate, reorder, rewrite, inject, late frames) into the real PacketBuilder, lock-step acceptance model",
+         "Seeded exploration of frame histories through a lossy/duplicating/reordering/corrupting channel into the real reassembler, compared step by step with an acceptance model written from the property statement: constructor accepts exactly start frames, add_frame accepts exactly the next frame of the same packet, a rejection carries a reason that truly applies and leaves every observer (counts, build result) unchanged, accounting never underflows, build completes exactly at the announced count, is repeatable, and yields the in-order concatenation of the accepted payloads.",
+         "Trusted: the acceptance model (40 lines, from the statement); only decoder-producible frames are offered. Not a proof.",
+         "DESIGN.md §5 S-BUILDER / C07"),
+ "C15": ("exploration",
+         "deterministic simulation: real Protocol over a scripted link with injected link results (every error kind), generated add/remove/tick/send histories, lock-step model, registry arbitration",
+         "Seeded exploration of operation histories against the real Protocol over a scripted Interface: every tick is compared with the model - at most one packet taken, each eligible handler exactly once with the unmodified packet (all handlers for own/broadcast address, capture-all handlers otherwise), 'nothing received' is Ok without calls, every link error value comes back unchanged without calls, transmissions made by handlers from inside the delivery reach the link and do not disturb the fan-out. A missing handler is attributed by asking the registry itself, so registry defects are not reported here.",
+         "Trusted: the 40-line Protocol model; InterfaceError compared by debug image. Not a proof.",
+         "DESIGN.md §5 S-NODE / C15"),
+ "C16": ("exploration",
+         "deterministic simulation: real Protocol over a scripted link with injected send outcomes, generated histories, lock-step routing model",
+         "Seeded exploration of the same histories; every send_packet is compared with the routing rule: own-address destination loops back to every local handler once and reaches the link only if the own address is broadcast; any other destination reaches the link exactly once, unmodified, with no local handler; the link's send outcome (Ok or any of 18 error values) is returned to the caller.",
+         "Trusted: the routing model; send outcomes are pinned only when no handler transmits before the request itself. Not a proof.",
+         "DESIGN.md §5 S-NODE / C16"),
+ "C17": ("exploration",
+         "deterministic simulation: generated register/remove histories interleaved with reveal deliveries on two independent paths, final registry sweep",
+         "Seeded exploration of registry-heavy histories (remove from the middle, id reuse, stale and never-issued ids). Ids returned by add must differ from every live id; after every registry operation a reveal delivery through tick and through loop-back send determines the live set (a handler is live if it fires on either path; a handler that fires on neither is attributed by asking the registry); removed handlers must never fire again on any delivery of the run; removing unregistered ids must report NoSuchHandler and change nothing; at the end every id ever seen is removed once more and must answer as the model says.",
+         "Trusted: the registry model (a map); liveness is observed through deliveries and through remove's own answer. Not a proof.",
+         "DESIGN.md §5 S-NODE / C17"),
+ "C18": ("exploration",
+         "deterministic simulation: real exchange_packet(s) over a scripted link with generated incoming queues and injected link/send errors; routing compared differentially with an ordinary send on a twin node; wait callback position in the global event sequence",
+         "Seeded exploration of exchanges over all 16 requested kinds, both forms, both capture modes, all own-address classes and generated incoming queues (matching, wrong kind, wrong address, error-flagged, wrongly sized, 'nothing', link error, later traffic). Oracle: routing effects equal those of an ordinary send of the same request on an identically built twin node; the wait callback runs exactly once, after the routing effects and before the first poll; single form returns the first matching entry in arrival order and leaves everything after it on the link; multi form returns all matches in order and drains up to the first dry answer; timeout / empty list when nothing matches; link and send errors propagate.",
+         "Trusted: the library's own decoder defines 'decodes as the requested kind'; inputs that crash a decoder (C05's subject) are not generated. Not a proof.",
+         "DESIGN.md §5 S-NODE / C18"),
+ "C01": ("exploration",
+         "deterministic simulation: two real nodes (Protocol over the real CAN/USART/serial interfaces) on a simulated reliable wire, seeded interleavings of sends, ticks of both nodes and device-level 'no data yet', handler logs against the sent sequence",
+         "Seeded exploration of event sequences (all 16 kinds, arbitrary field values, single- and multi-frame incl. 4096 frames) x address pairs (incl. broadcast) x handler-table mixes x all three links x interleavings of data arrival with polling, with traffic in both directions when handlers acknowledge. After every step every handler's log must be a prefix of exactly the events addressed to it (or all events for capture-all handlers), each decoding to the sent value; at quiescence logs equal expectations: once, in order, nothing that was not sent; all sends/ticks Ok; bounded ticks to quiescence once data has arrived.",
+         "Trusted: reliable FIFO wire; simulated devices return only values the real drivers can return. Not a proof.",
+         "DESIGN.md §5 S-E2E / C01"),
 }
 
-PENDING = {'C01': 'check not built yet in this round (claimed in DESIGN.md §5; will move to checks when its scenario exists)', 'C07': 'check not built yet in this round (claimed in DESIGN.md §5; will move to checks when its scenario exists)', 'C15': 'check not built yet in this round (claimed in DESIGN.md §5; will move to checks when its scenario exists)', 'C16': 'check not built yet in this round (claimed in DESIGN.md §5; will move to checks when its scenario exists)', 'C17': 'check not built yet in this round (claimed in DESIGN.md §5; will move to checks when its scenario exists)', 'C18': 'check not built yet in this round (claimed in DESIGN.md §5; will move to checks when its scenario exists)'}
+PENDING = {}
 
 def cmd(pid, tier):
     return "./check %s %s" % (pid, tier)
